@@ -23,6 +23,7 @@ func TestReplay_Front(t *testing.T) {
 	frontReplay("TestProp_C12_RateLimit", runC12RL)
 	frontReplay("TestProp_C17_Inbound", runC17In)
 	frontReplay("TestProp_C09_ManyNonces", runC09)
+	frontReplay("TestProp_C17_InboundConcurrent", runC17C)
 	frontReplay("TestProp_C08_ReloadWindow", runC18)
 	frontReplay("TestProp_C05_PublishTarget", runC15)
 	frontReplay("TestProp_C02_StoreWiring", swRun("C02"))
